@@ -159,14 +159,14 @@ def instances():
     for n, be, tier in ((4, BOTH, "quick"), (8, G8, "quick"), (16, G8, "quick"), (16, S16, "thorough"), (32, S16, "thorough"), (32, G8, "thorough"), (64, S16, "thorough")):
         sfx = "" if be == BOTH else ("_" + be[0])
         for mode, mn in ((0, "next"), (1, "fold"), (2, "clone")):
-            T("c09_iter_%s_n%d%s" % (mn, n, sfx), "c09::table_iter::<%d>(%d)" % (n, mode), n, be=be, tier=tier, props=C9, covers="some", timeout=1500 if tier == "quick" else 14400, mem_gb=14 if tier == "quick" else 30,
+            T("c09_iter_%s_n%d%s" % (mn, n, sfx), "c09::table_iter::<%d>(%d)" % (n, mode), n, be=be, tier=tier, props=C9, covers="some", timeout=2400 if tier == "quick" else 14400, mem_gb=20 if tier == "quick" else 30,
               share_quick=("C18", "C02") if (n, mode) in ((4, 0), (4, 1)) else ())
     T("c09_iter_mut_n8", "c09::table_iter_mut::<8>()", 8, props=C9)
-    T("c09_iter_mut_n16", "c09::table_iter_mut::<16>()", 16, props=C9, be=G8)
+    T("c09_iter_mut_n16", "c09::table_iter_mut::<16>()", 16, props=C9, be=G8, timeout=2400, mem_gb=20)
     T("c09_into_iter_n8", "c09::table_into_iter::<8>()", 8, props=C9 + ("C03",), share_quick=("C02", "C03"))
-    T("c09_into_iter_n16", "c09::table_into_iter::<16>()", 16, props=C9 + ("C03",), be=G8)
+    T("c09_into_iter_n16", "c09::table_into_iter::<16>()", 16, props=C9 + ("C03",), be=G8, timeout=2400, mem_gb=20)
     T("c09_drain_n8", "c09::table_drain::<8>()", 8, props=C9 + ("C10",), share_quick=("C10", "C02", "C08"))
-    T("c09_drain_n16", "c09::table_drain::<16>()", 16, props=C9 + ("C10",), be=G8, share_quick=("C10",))
+    T("c09_drain_n16", "c09::table_drain::<16>()", 16, props=C9 + ("C10",), be=G8, share_quick=("C10",), timeout=2400, mem_gb=20)
     T("c09_defaults_empty", "c09::defaults_empty()", 4, props=C9, be=ANY)
     for w, wn in enumerate(("iter", "keys", "values", "iter_mut", "values_mut", "into_iter", "into_keys", "into_values", "drain")):
         T("c09_map_%s_n8" % wn, "c09::map_iters::<8>(%d)" % w, 8, props=C9, be=G8 if w not in (0, 5) else BOTH)
